@@ -17,6 +17,7 @@ ID = "C18"
 LEVEL = "fault_enumeration"
 ASSUMPTIONS = [
     "fault model of the property: only an initial part of the program-ordered writes reaches the files; in-place block rewrites are atomic; appends are cut at block and at byte granularity; both files are cut at the same program point",
+    "with a clear() in the history, 'the completed history reports' is read as: reported at some request boundary of the history (a cut inside the clear may still show the state before it)",
     "the write log is taken on the file objects handed to FileStorage (interposition of traph.traph.open), so it is what the code really writes, in the order it writes it",
     "rules re-supplied at reopen: those in RAM once the request in progress completes",
     "bounds: all histories up to the stated depth over the alphabet; every cut inside the last request of each history (cuts inside earlier requests are the cuts of the shorter histories, enumerated on their own); byte cuts {1, len/2, len-1} (quick) / all (thorough)",
@@ -37,6 +38,7 @@ def alphabet():
         al.create(Ax),
         al.rule(A, "path1"),
         al.pages((Ab, Az), True),
+        al.clear("domain", {A: "path1"}),  # two truncations + re-creation: cuts between them too
     ]
 
 
